@@ -16,7 +16,11 @@ import numpy as np
 from . import core, findlib as fl
 
 CHIRAL = {"chiral", "asym4", "asym5"}          # patterns whose mirror image is NOT an occurrence
-ATOLS = [0.02, 0.05, 0.1, 0.2]
+ATOLS = [0.02, 0.05, 0.1, 0.2]                                   # the grid's tolerances (kept)
+TINY_ATOLS = [1e-4, 2e-4, 5e-4, 2e-3]                           # a caller telling nearly identical fragments apart
+# the random stream: tiny, ordinary (default 0.05 twice) and large tolerances
+ALL_ATOLS = TINY_ATOLS + [0.02, 0.05, 0.05, 0.1, 0.2, 0.3]
+STRETCH = [2.5, 3.0, 4.0, 6.0, 8.0]                             # "one bond s·atol too long"
 FRACS = [0.0, 0.01, 0.5, 0.99, 0.999]
 POSES = ["random", "identity", "axis90", "axis180"]
 GRID_CELLS = ["ortho", "tri+", "rot"]
@@ -86,7 +90,7 @@ def _place(rng, case, src, els, pose="random", frac=None, perturb=0.0, dmin=1.6,
     return None
 
 
-def add_decoy(rng, case, kind, atol):
+def add_decoy(rng, case, kind, atol, stretch=None):
     """append one decoy of the given kind; records it in case["decoys"]. Returns True when placed."""
     pat = case["pattern"]
     ppos = [[Fraction(x).limit_denominator(10 ** 6) for x in p] for p in pat["pos"]]
@@ -112,6 +116,21 @@ def add_decoy(rng, case, kind, atol):
         else:
             return False
         g = _place(rng, case, ppos, els, perturb=atol / 8 / math.sqrt(3))
+    elif kind == "stretch" and k >= 2:
+        # a rigid copy in which ONE bond is s·atol too long (atom j pushed away from atom i along the bond), s = 2.5 … 8:
+        # outside the requested tolerance by a small factor — any silent widening of the tolerance accepts it
+        i, j = rng.sample(range(k), 2)
+        b = np.array([float(ppos[j][c] - ppos[i][c]) for c in range(3)])
+        L = np.linalg.norm(b)
+        if L == 0:
+            return False
+        sfac = stretch if stretch is not None else rng.choice(STRETCH)
+        step = b / L * (sfac * atol)
+        src = [list(p) for p in ppos]
+        src[j] = [Fraction(float(ppos[j][c]) + float(step[c])).limit_denominator(10 ** 9) for c in range(3)]
+        g = _place(rng, case, src, els, perturb=0.0)
+        kind = "stretch"
+        case["info"].setdefault("stretch", []).append(sfac)
     else:
         return False
     if g is None:
@@ -123,17 +142,36 @@ def add_decoy(rng, case, kind, atol):
 
 def random_case(rng):
     """one structure of the random stream: findlib.planted_structure + extra decoys + hints + atol"""
-    atol = rng.choice(ATOLS)
+    atol = rng.choice(ALL_ATOLS)
     boundary = rng.choice([None, None, "face", "corner"])
     pose = rng.choice([None, None, None, "identity", "axis90", "axis180"])
     case = fl.planted_structure(rng, atol=atol, decoys=True, pose=pose, boundary=boundary)
     case["decoys"] = decoy_groups(case)
-    for kind, p in (("wrongelem", 0.5), ("mirror", 0.35), ("permuted", 0.25)):
+    for kind, p in (("wrongelem", 0.5), ("mirror", 0.35), ("permuted", 0.25), ("stretch", 0.6), ("stretch", 0.3)):
         if rng.random() < p:
             add_decoy(rng, case, kind, atol)
     case["info"]["boundary"] = boundary or "inside"
     case["info"]["pose"] = pose or "mixed"
     return case, atol, valid_hints(rng, case["pattern"])
+
+
+def zero_tol_case(rng):
+    """edge value atol = 0: exact, unperturbed, axis-aligned copies (dyadic coordinates) — whatever is reported must be exact"""
+    case = fl.planted_structure(rng, atol=0.0, decoys=True, pose=rng.choice(["identity", "axis90", "axis180"]),
+                                boundary=rng.choice([None, "face"]), perturb=False)
+    case["decoys"] = decoy_groups(case)
+    add_decoy(rng, case, "wrongelem", 0.0)
+    case["info"]["boundary"] = "inside"
+    case["info"]["pose"] = "exact"
+    return case, 0.0, (None, None, None)
+
+
+def call_style(rng, atol, hints):
+    """how the arguments are passed: every keyword at default / explicit; positions+quats requested or not; verbose"""
+    return {"positions": rng.random() < 0.75,
+            "omit_defaults": rng.random() < 0.5,       # leave out atol when it is the default 0.05, hints when None
+            "verbose": rng.random() < 0.05,
+            "np_hints": rng.random() < 0.25}           # indices as numpy integers (what np.argmax hands to callers)
 
 
 def planted_at(rng, pname, cell_kind, pose, frac, atol):
@@ -154,10 +192,143 @@ def planted_at(rng, pname, cell_kind, pose, frac, atol):
     if g is not None:
         case["planted"].append(sorted(g))
         case["info"]["copies"] = 1
-    for kind in ("mirror", "wrongelem"):
+    for kind in ("mirror", "wrongelem", "stretch"):
         if rng.random() < 0.5:
             add_decoy(rng, case, kind, atol)
     return case
+
+
+# ------------------------------------------------------------------ structures in a GIVEN cell; call sequences
+
+def empty_case(pname, cell_rows, cell_kind):
+    pat = fl.pattern_json(pname)
+    return {"elems": [], "pos": [], "cell": [[float(v) for v in row] for row in cell_rows],
+            "pattern": {"elems": list(pat["elems"]), "pos": [[float(x) for x in p] for p in pat["pos"]], "name": pname},
+            "planted": [], "decoys": [],
+            "info": {"cell": cell_kind, "pattern": pname, "copies": 0, "decoys": [], "pose": "mixed", "boundary": "seq"}}
+
+
+def plant(rng, case, atol, ncopies=1, boundary=False, perturb=True):
+    pat = fl.pattern_json(case["pattern"]["name"])
+    for _ in range(ncopies):
+        fr = [rng.choice(FRACS) for _ in range(3)] if boundary else None
+        g = _place(rng, case, pat["pos"], list(pat["elems"]), pose=rng.choice(POSES), frac=fr,
+                   perturb=(atol / 8 / math.sqrt(3)) if perturb else 0.0, tries=1 if fr else 40)
+        if g is not None:
+            case["planted"].append(sorted(g))
+            case["info"]["copies"] += 1
+
+
+def wide_enough(cell_rows, pnames, atol):
+    d = max(fl.diam(fl.pattern_json(n)["pos"]) for n in pnames)
+    return min(fl.perp_widths(cell_rows)) > d + 2 * atol + 1.0
+
+
+def ortho_and_tilted(rng, pnames, atol):
+    """an orthorhombic cell and a LAMMPS-triclinic cell WITH THE SAME DIAGONAL (same a, b, c; only the tilts differ)"""
+    d = max(fl.diam(fl.pattern_json(n)["pos"]) for n in pnames)
+    while True:
+        o = fl.make_cell(rng, "ortho", max(7.0, 2.2 * d + 3))
+        t = lambda: rng.choice([1, -1]) * Fraction(rng.randint(4, 20), 8)
+        tri = [[o[0][0], 0, 0], [t(), o[1][1], 0], [t(), t(), o[2][2]]]
+        if wide_enough(o, pnames, atol) and wide_enough(tri, pnames, atol):
+            return o, tri
+
+
+def call_of(case, atol, hints=(None, None, None), positions=True, seed=0, **opts):
+    """one call of find_pattern_in_structure: the case + every argument (see props/c01.py `call_find`)"""
+    c = {"op": "find-sound", "elems": list(case["elems"]), "pos": [list(p) for p in case["pos"]], "cell": case["cell"],
+         "pattern": case["pattern"], "atol": atol, "hints": list(hints), "seed": seed, "positions": bool(positions),
+         "decoys": [[k, list(grp)] for k, grp in case.get("decoys", [])],
+         "planted": [list(p) for p in case.get("planted", [])], "info": dict(case.get("info", {}))}
+    c.update(opts)
+    return c
+
+
+def random_sequence(rng):
+    """a list of calls to be made IN ORDER in one process, re-using the SAME Atoms objects where the inputs are the same
+    (`sobj` / `pobj` = object keys). Kinds:
+      two-tols   : one structure, a large and a tiny tolerance alternately; the structure holds a copy whose bond is
+                   s·tiny too long (inside the large tolerance, outside the tiny one)
+      same-diag  : an orthorhombic cell, then a triclinic cell with the same diagonal, then the orthorhombic one again
+      two-pats   : one structure holding copies of two patterns; pattern A, pattern B, pattern A
+      two-structs: one pattern object on structures of different size / cell kind"""
+    kind = rng.choice(["two-tols", "two-tols", "same-diag", "same-diag", "two-pats", "two-structs"])
+    names = [n for n in fl.PATTERNS if len(fl.PATTERNS[n][0]) >= 2]
+    calls = []
+    flag = lambda: rng.random() < 0.7
+    if kind == "two-tols":
+        pn = rng.choice(names)
+        tiny, large = rng.choice(TINY_ATOLS[:3]), rng.choice([0.02, 0.05, 0.1])
+        ck = rng.choice(["ortho", "tri+", "rot"])
+        d = fl.diam(fl.pattern_json(pn)["pos"])
+        while True:
+            cell = fl.make_cell(rng, ck, max(7.0, 2.2 * d + 3))
+            if wide_enough(cell, [pn], large):
+                break
+        case = empty_case(pn, cell, ck)
+        plant(rng, case, tiny, ncopies=rng.randint(1, 2), boundary=rng.random() < 0.5)
+        for _ in range(rng.randint(1, 2)):
+            add_decoy(rng, case, "stretch", tiny)
+        if not case["elems"]:
+            plant(rng, case, tiny, ncopies=1)
+        order = rng.choice([[large, tiny, large], [tiny, large, tiny], [large, tiny]])
+        h = valid_hints(rng, case["pattern"])
+        for a in order:
+            calls.append(call_of(case, a, h, flag(), rng.randrange(1 << 30), sobj=0, pobj=0))
+    elif kind == "same-diag":
+        pn = rng.choice(names)
+        atol = rng.choice(ALL_ATOLS)
+        o, tri = ortho_and_tilted(rng, [pn], atol)
+        cases = []
+        for cell, ck in ((o, "ortho"), (tri, "tri")):
+            c = empty_case(pn, cell, ck)
+            plant(rng, c, atol, ncopies=rng.randint(1, 2), boundary=True)     # copies across faces: images matter
+            add_decoy(rng, c, rng.choice(["stretch", "wrongelem", "mirror"]), atol)
+            if not c["elems"]:
+                plant(rng, c, atol, ncopies=1)
+            cases.append(c)
+        for which in rng.choice([[0, 1, 0], [1, 0, 1], [0, 1]]):
+            calls.append(call_of(cases[which], atol, (None, None, None), flag(), rng.randrange(1 << 30), sobj=which, pobj=0))
+    elif kind == "two-pats":
+        pa, pb = rng.sample(names, 2)
+        atol = rng.choice(ALL_ATOLS)
+        ck = rng.choice(["ortho", "tri-", "rot"])
+        d = max(fl.diam(fl.pattern_json(n)["pos"]) for n in (pa, pb))
+        while True:
+            cell = fl.make_cell(rng, ck, max(8.0, 2.2 * d + 4))
+            if wide_enough(cell, [pa, pb], atol):
+                break
+        ca = empty_case(pa, cell, ck)
+        plant(rng, ca, atol, ncopies=1, boundary=rng.random() < 0.5)
+        add_decoy(rng, ca, "stretch", atol)
+        # the copies of B go into the same atom list
+        cb = empty_case(pb, cell, ck)
+        cb["elems"], cb["pos"] = ca["elems"], ca["pos"]
+        plant(rng, cb, atol, ncopies=1, boundary=rng.random() < 0.5)
+        add_decoy(rng, cb, "stretch", atol)
+        for c, po in rng.choice([[(ca, 0), (cb, 1), (ca, 0)], [(cb, 1), (ca, 0), (cb, 1)]]):
+            calls.append(call_of(c, atol, valid_hints(rng, c["pattern"]), flag(), rng.randrange(1 << 30), sobj=0, pobj=po))
+    else:
+        pn = rng.choice(names)
+        atol = rng.choice(ALL_ATOLS)
+        h = valid_hints(rng, {"pos": [[float(x) for x in p] for p in fl.pattern_json(pn)["pos"]]})
+        for si in range(rng.randint(2, 3)):
+            ck = rng.choice(["ortho", "tri+", "tri-", "rot"])
+            d = fl.diam(fl.pattern_json(pn)["pos"])
+            while True:
+                cell = fl.make_cell(rng, ck, max(7.0, 2.2 * d + 3))
+                if wide_enough(cell, [pn], atol):
+                    break
+            c = empty_case(pn, cell, ck)
+            plant(rng, c, atol, ncopies=rng.randint(0, 3), boundary=rng.random() < 0.5)
+            add_decoy(rng, c, rng.choice(["stretch", "wrongelem", "mirror", "permuted"]), atol)
+            if not c["elems"]:
+                plant(rng, c, atol, ncopies=1)
+            calls.append(call_of(c, atol, h, flag(), rng.randrange(1 << 30), sobj=si, pobj=0))
+    for c in calls:
+        c["info"]["seq"] = kind
+    return kind, calls
 
 
 def crossings(case):
